@@ -1,8 +1,8 @@
 package rules
 
 import (
-	"go/ast"
 	"fmt"
+	"go/ast"
 	"go/constant"
 	"go/token"
 	"go/types"
@@ -288,6 +288,7 @@ func (c *Ctx) ruleUTF16() {
 	little, okL := c.constBoolInt("golang.org/x/text/encoding/unicode", "LittleEndian")
 	usesLE := func(fn *ssa.Function) (bool, string) {
 		found, det := false, "no call of unicode.UTF16"
+		bad := false
 		// the function and the library helpers in its view
 		var scope []*ssa.Function
 		inScope := map[*ssa.Function]bool{}
@@ -299,10 +300,18 @@ func (c *Ctx) ruleUTF16() {
 		}
 		judge := func(call *ssa.Call) {
 			k, isK := evalConstBoolInt(call.Call.Args[0])
-			if okL && isK && k == little {
-				found = true
-			} else {
+			// the byte order is fixed: a byte order mark in the data must not switch it (or be swallowed)
+			ignoreBOM, okI := c.constBoolInt("golang.org/x/text/encoding/unicode", "IgnoreBOM")
+			b, isB := evalConstBoolInt(call.Call.Args[1])
+			switch {
+			case !(okL && isK && k == little):
 				det = "unicode.UTF16 is not called with LittleEndian"
+				bad = true
+			case !(okI && isB && b == ignoreBOM):
+				det = "unicode.UTF16 is not called with IgnoreBOM: a leading U+FEFF/U+FFFE code unit would be dropped or switch the byte order"
+				bad = true
+			default:
+				found = true
 			}
 		}
 		for _, f := range withAnon(fn) {
@@ -340,7 +349,7 @@ func (c *Ctx) ruleUTF16() {
 				}
 			})
 		}
-		return found, det
+		return found && !bad, det
 	}
 	if fn := c.Fn("A-u.utf16", "efi/util.MarshalUtf16Var"); fn != nil {
 		dv := c.deepViewOf(fn, 3)
